@@ -373,3 +373,33 @@ package stack
 //@   ensures cntMain(calls, n) >= 1
 //@   induction n
 //@   uses cntMainBounds
+
+// ---- bucket.go: the sort comparator (C13) -------------------------------------
+//@ pred noinline BucketLt(l *Bucket, r *Bucket) = l.First != r.First ? l.First : (SigLt(&l.Signature, &r.Signature) || (!SigLt(&r.Signature, &l.Signature) && len(r.IDs) > len(l.IDs)))
+
+//@ func (*Snapshot).Aggregate$1
+//@   requires 0 <= i && i < len(bs) && 0 <= j && j < len(bs)
+//@   requires forall k :: 0 <= k && k < len(bs) ==> bs[k] != nil && LocsOK(bs[k].Stack.Calls)
+//@   modifies nothing
+//@   ensures [cmpIsSpec C13] result <==> BucketLt(bs[i], bs[j])
+
+//@ lemma [C13] bucketLtIrreflexive(l *Bucket)
+//@   ensures !BucketLt(l, l)
+//@   uses sigLtIrreflexive
+//@ lemma [C13] bucketLtAsymmetric(l *Bucket, r *Bucket)
+//@   requires BucketLt(l, r)
+//@   ensures !BucketLt(r, l)
+//@   uses sigLtAsymmetric
+//@ lemma [C13] bucketLtTransitive(a *Bucket, b *Bucket, c *Bucket)
+//@   requires LocsOK(a.Stack.Calls) && LocsOK(b.Stack.Calls) && LocsOK(c.Stack.Calls)
+//@   requires BucketLt(a, b) && BucketLt(b, c)
+//@   ensures BucketLt(a, c)
+//@   uses sigLtTransitive, sigIncomparableTransitive, sigLtAsymmetric
+//@ lemma [C13] bucketIncomparableTransitive(a *Bucket, b *Bucket, c *Bucket)
+//@   requires LocsOK(a.Stack.Calls) && LocsOK(b.Stack.Calls) && LocsOK(c.Stack.Calls)
+//@   requires !BucketLt(a, b) && !BucketLt(b, a) && !BucketLt(b, c) && !BucketLt(c, b)
+//@   ensures !BucketLt(a, c) && !BucketLt(c, a)
+//@   uses sigLtTransitive, sigIncomparableTransitive, sigLtAsymmetric
+//@ lemma [C13] firstBucketFirst(a *Bucket, b *Bucket)
+//@   requires a.First && !b.First
+//@   ensures BucketLt(a, b) && !BucketLt(b, a)
